@@ -10,11 +10,11 @@ from harness.exprser import Ser, ring_equal
 PID = 'C10'
 PROPS_MODULE = 'SympdeModel.Props.C10'
 RULE = ('bilinear and linear forms on Square/Cube (scalar, vector and product spaces; domain, whole-boundary and '
-        'single-face integrals; coefficient fields, Constants, rational coefficients) built from a catalogue of '
+        'single-face integrals; coefficient fields, Constants declared with or without sympy assumptions, rational coefficients) built from a catalogue of '
         'symmetric and non-symmetric terms; each form is called with its own arguments, the exchanged arguments, '
         'arguments that mention the old ones (u+v, 2*v, v), fresh functions, fields, a single function instead of a '
-        'tuple, and keyword arguments (field -> field / own argument / expression, constant -> number, two fields '
-        'exchanged, unknown names); is_symmetric of every bilinear form.  One case = one call / one flag; '
+        'tuple, and keyword arguments (field -> field / own argument / expression, constant -> number / other constant, two fields or two '
+        'constants exchanged, unknown names); is_symmetric of every bilinear form.  One case = one call / one flag; '
         'non-trivial = some declared argument or free variable is really replaced; distinct by request line')
 ASSUMPTIONS = [
     '`_xreplace` rebuilds every changed node with `func(*args)`, i.e. re-runs the operator constructors (C02): the '
@@ -71,7 +71,10 @@ class World:
         mk = lambda sp, names: [sp.element(n + sfx) for n in names]
         self.u, self.v, self.p, self.q, self.w, self.f, self.g = mk(self.V, ['u', 'v', 'p', 'q', 'w', 'f', 'g'])
         self.F, self.G, self.H, self.B = mk(self.W, ['F', 'G', 'H', 'B'])
-        self.k1, self.k2 = m['Constant']('kap' + sfx), m['Constant']('mu' + sfx)
+        # free constants are declared with or without sympy assumptions: `Constant('kap', real=True)` and
+        # `Constant('kap')` are different symbols, a keyword must replace the one the integrands contain
+        asm = lambda: dict(rng.choice([(), (), (('real', True),), (('positive', True),), (('integer', True),)]))
+        self.k1, self.k2 = m['Constant']('kap' + sfx, **asm()), m['Constant']('mu' + sfx, **asm())
         self.nn = m['NormalVector']('nn')
         self.D1 = [m['dx'], m['dy'], m['dz']][:self.dim]
 
@@ -294,17 +297,28 @@ def gen_calls(W, rng, tr, te, bilinear):
     return out
 
 
+def free_vars(form, variables, m):
+    """{name: object} of the free variables, computed without sympde's own table: the coefficient fields and
+    constants that occur in the integrands (the very objects, with the assumptions they were declared with) and
+    are not arguments of the form — never coordinates, normals or domains"""
+    argnames = {getattr(x, 'name', None) for x in variables}
+    atoms = form.expr.atoms(m['Constant'], m['ScalarFunction'], m['VectorFunction'])
+    return {a.name: a for a in sorted(atoms, key=lambda a: a.name) if a.name not in argnames}
+
+
 def gen_kwargs(W, rng, form, tr, te):
     """keyword dictionaries over the free variables of the form (and unknown names)"""
     m = W.m
-    free = dict(form.get_free_variables())
+    free = free_vars(form, tr + te, m)
     names = list(free)
     out = []
     if names:
         n = rng.choice(names)
         var = free[n]
+        consts = [x for x in names if isinstance(free[x], m['Constant'])]
+        const_value = lambda c: rng.choice([2, m['Rational'](3, 2), W.k2 if free[c] != W.k2 else W.k1, m['Constant']('lam10', real=True)])
         if isinstance(var, m['Constant']):
-            out.append(('kw-const', {n: rng.choice([2, m['Rational'](3, 2), W.k2])}))
+            out.append(('kw-const', {n: const_value(n)}))
         elif isinstance(var, m['VectorFunction']):
             out.append(('kw-field', {n: rng.choice([W.H, W.B, W.F, W.H + W.B])}))
         else:
@@ -316,6 +330,14 @@ def gen_kwargs(W, rng, form, tr, te):
                 out.append(('kw-zero', {n0: rng.choice([0, m['Rational'](0)])}))
             elif isinstance(free[n0], m['ScalarFunction']) and len(names) >= 2:
                 out.append(('kw-zero', {n0: rng.choice([0, m['Rational'](0)])}))
+        # constants (declared with or without assumptions) are replaced by keyword like the fields
+        # (seeded change C10-10 re-created the constants of the by-name table from their names)
+        if consts and not isinstance(var, m['Constant']) and rng.random() < 0.6:
+            c0 = rng.choice(consts)
+            out.append(('kw-const', {c0: const_value(c0)}))
+        if len(consts) >= 2:
+            a, b = rng.sample(consts, 2)
+            out.append(('kw-const-exchange', {a: free[b], b: free[a]}))
         fields = [x for x in names if isinstance(free[x], m['ScalarFunction'])]
         if len(fields) >= 2:
             a, b = rng.sample(fields, 2)
@@ -450,12 +472,10 @@ def check_call(o, W, form, tr, te, pos, kw, label, bilinear, m):
             vals = list(p) if isinstance(p, (list, tuple, m['Tuple'])) else [p]
         else:
             vals = list(pos)
-    free = dict(form.get_free_variables())
     # independent notion of "free variable" (the property: coefficient fields and constants of the
-    # integrands, by name — never coordinates, normals, domains or the form's own arguments)
-    argnames = {getattr(x, 'name', None) for x in variables}
-    indep = {a.name for a in form.expr.atoms(m['Constant'], m['ScalarFunction'], m['VectorFunction'])} - argnames
-    free = {n: v_ for n, v_ in free.items() if n in indep}
+    # integrands, by name — never coordinates, normals, domains or the form's own arguments); the objects are
+    # taken from the integrands, not from the form's own by-name table
+    free = free_vars(form, variables, m)
     desc = '%s(%s%s)' % ('a' if bilinear else 'l', ', '.join(str(p) for p in pos), ''.join(', %s=%s' % kv for kv in kw.items()))
     key = 'call:%s:%s:%s' % (label, str(form.expr)[:160], desc[:160])
     r = call(form, *pos, **kw)
@@ -502,6 +522,32 @@ def oracle(ctx, factor, seeds):
         bad = check_call(o, W, a, [W.u], [W.v], pos, kw, label, True, m)
         if bad:
             o.fail(key, what + ': ' + bad[1], **bad[2])
+        else:
+            o.count('fixed-corpus:' + key)
+
+    # ---- fixed corpus: free constants declared with sympy assumptions next to plain ones, replaced by keyword
+    # (`Constant('kappa', real=True)` is not `Constant('kappa')`: the keyword designates the constant of the integrands)
+    Cst, integral, dot, grad, div = m['Constant'], m['integral'], m['dot'], m['grad'], m['div']
+    cc, kr, kp, ki = Cst('c10c'), Cst('kappa10', real=True), Cst('nu10', positive=True), Cst('m10', integer=True)
+    ab = m['BilinearForm']((W.u, W.v), integral(W.domain, kr * dot(grad(W.u), grad(W.v)) + cc * W.f * W.u * W.v) + integral(W.faces[0], kp * W.u * W.v))
+    bb = m['BilinearForm']((W.F, W.G), integral(W.domain, kp * div(W.F) * div(W.G) + ki * dot(W.F, W.G)))
+    lb = m['LinearForm'](W.v, integral(W.domain, kr**2 * W.f * W.v + cc * W.D1[0](W.v)))
+    for name, form, tr_, te_, pos, kw in [
+            ('plain-and-field', ab, [W.u], [W.v], (W.u, W.v), {'c10c': 2, W.f.name: W.g}),
+            ('real', ab, [W.u], [W.v], (W.u, W.v), {'kappa10': 3}),
+            ('positive-boundary', ab, [W.u], [W.v], (W.v, W.u), {'nu10': m['Rational'](1, 2), 'c10c': 0}),
+            ('integer-vector', bb, [W.F], [W.G], (W.F, W.G), {'m10': 4}),
+            ('two-declared', bb, [W.F], [W.G], (W.G, W.H), {'nu10': sympy.pi, 'm10': cc}),
+            ('declared-to-declared', bb, [W.F], [W.G], (W.F, W.G), {'nu10': ki, 'm10': kp}),
+            ('real-linear', lb, [], [W.v], (W.w,), {'kappa10': 2}),
+            ('exchange-plain-real-linear', lb, [], [W.v], (W.w,), {'c10c': kr, 'kappa10': cc}),
+            ('exchange-plain-real', ab, [W.u], [W.v], (W.u, W.v), {'c10c': kr, 'kappa10': cc}),
+            ('same-name-plain', ab, [W.u], [W.v], (W.w, W.v), {'kappa10': Cst('kappa10')})]:
+        o.evaluations += 1
+        key = 'corpus:kw-constant-assumptions:' + name
+        bad = check_call(o, W, form, tr_, te_, pos, kw, 'kw-const', bool(tr_), m)
+        if bad:
+            o.fail(key, 'a keyword must replace the free constant of that name, whatever assumptions it was declared with: ' + bad[1], **bad[2])
         else:
             o.count('fixed-corpus:' + key)
 
@@ -617,7 +663,7 @@ def replay(ctx, path):
     if still:
         print('REPLAY: still failing:', still[0]['what'][:600])
         return 1
-    if key.startswith('kw-sequential'):
+    if key.startswith(('kw-sequential', 'corpus:')):
         print('REPLAY: the recorded witness no longer fails')
         return 0
     print('REPLAY: random form; re-run `VERIF_SEED=%s ./check C10 --tier %s` to regenerate it; fixed corpus now fails on: %s' % (
